@@ -372,6 +372,23 @@ impl Monitors {
     /// C05: reservations of every worker add up to its total; multi-node workers hold exactly one task
     pub fn resinv(&mut self, snap: &CoreSnapshot) {
         let mut fails = Vec::new();
+        // C03: every registered consumer of a task is a task the core knows (a removed task unregisters itself everywhere)
+        for t in &snap.tasks {
+            for c in &t.consumers {
+                if !snap.tasks.iter().any(|x| x.id == *c) {
+                    fails.push(("c03.propagate", "dangling-consumer", format!("task {} lists the consumer {} which the core no longer knows", tid(t.id), tid(*c))));
+                }
+            }
+        }
+        // C15: a backlog (prefill set) is given back as soon as a task of HIGHER priority of the same class becomes ready
+        // (`check_dispose_prefill`): no ready priority level of a queue lies above the priority of its prefill set
+        for (rq, q) in snap.queues.iter().enumerate() {
+            if let (Some((pp, ids)), Some((top, tids))) = (&q.prefill, q.ready.first()) {
+                if !ids.is_empty() && top > pp {
+                    fails.push(("c15.prefill_priority", "lower-priority-backlog-kept", format!("queue {rq}: tasks {:?} are ready at priority {top} while the backlog {:?} was prefilled at the lower priority {pp}", tids.iter().map(|t| tid(*t)).collect::<Vec<_>>(), ids.iter().map(|t| tid(*t)).collect::<Vec<_>>())));
+                }
+            }
+        }
         // C07: the crash counter of every task the core knows = failure losses of workers that ran it
         for t in &snap.tasks {
             let expect = self.expected_crashes.get(&t.id).copied().unwrap_or(0);
@@ -444,6 +461,13 @@ impl Monitors {
             if let Record::Mn { rq, sets } = r {
                 // multi-node placements: every chosen worker lives long enough for the time request
                 if let Some(def) = self.rqs.get(*rq as usize).and_then(|v| v.first()).cloned() {
+                    // every multi-node placement takes exactly the requested number of distinct workers
+                    for set in sets {
+                        let distinct: BTreeSet<u32> = set.iter().copied().collect();
+                        if distinct.len() as u32 != def.n_nodes || set.len() as u32 != def.n_nodes {
+                            fails.push(("c05.mn", "mn-wrong-node-count", format!("multi-node request {rq} asks {} nodes, a task was placed on workers {:?}", def.n_nodes, set)));
+                        }
+                    }
                     for w in sets.iter().flatten() {
                         // a worker that refused this request (hard reject: not enough time on ITS clock) blocks it for good
                         if before.workers.iter().any(|wk| wk.id == *w && wk.blocked.contains(&(*rq, 0))) {
